@@ -24,6 +24,10 @@ def rule_token_conv(ctx: Ctx, rid="C05.TOKEN-CONV", only_tokens=None, floor=2):
             continue
         if only_tokens is not None and r.name not in only_tokens:
             continue
+        # identifier rules (also fallback rules re-typed to the identifier token) carry no literal
+        idname = lc.rules[LR.id_rule(ctx)].name
+        if r.name == idname or (r.action and r.action.type_rewrites and all(t_.strip("'\"") == idname for t_ in r.action.type_rewrites)):
+            continue
         n += 1
         con = f"language/lexer.py:{lc.name}.{r.name}"
         a = r.action
